@@ -1532,13 +1532,6 @@ theorem parseCol_cols (fx : Fixes) (sp : Spec) (st : State) (hkw : st.hasKw = sp
       · exact Or.inr h.2
     exact parseCol_hinted fx sp st hkw R hne hh hok'
 
-/-- number of columns of an un-hinted column-major answer (without the kwargs column) -/
-def ncols (sp : Spec) (a0 : Answer) : Nat :=
-  match sp.fmt with
-  | .AP => 2
-  | .PM => a0.pmf.length
-  | _ => 1
-
 theorem firstOfEach_lists (C : List (List PyVal)) (h : List PyVal) (r : Ref) (hh : heads C = some h) :
     firstOfEach (C.map (fun c => PyVal.list r c)) = .ok h := by
   induction C generalizing h with
@@ -1618,6 +1611,106 @@ theorem colsOf_shape (sp : Spec) (a0 : Answer) (as0 : List PyVal) (R' : Rows) (h
     · simp [colsOf, ncols, hlen.1, hK0]
     · simpa [colsOf, rowFields] using firstOfEach_lists _ _ (.lrn 0) hheads
     · intro c hc; simp [colsOf] at hc; obtain ⟨x, _, rfl⟩ := hc; rfl
+
+
+
+
+/-- a sequence whose first item is a column (a list of n values): valid for a batch of n -/
+theorem validOut_cols (fx : Fixes) (t : Bool) (c0 : List PyVal) (rest : List PyVal) (n : Nat) (hn : c0.length = n) :
+    validOut fx (mkSeq t (.list (.lrn 0) c0 :: rest)) n = true := by
+  have hl : ∃ l, (PyVal.list (.lrn 0) c0 :: rest).getLast? = some l := by
+    cases h : (PyVal.list (.lrn 0) c0 :: rest).getLast? with
+    | none => simp [List.getLast?_eq_none_iff] at h
+    | some l => exact ⟨l, rfl⟩
+  obtain ⟨l, hl⟩ := hl
+  cases t <;> simp [mkSeq, validOut, hl, PyVal.isDict, lenOr0, PyVal.len, hn]
+
+@[simp] theorem lenE_list (r : Ref) (xs : List PyVal) : lenE (PyVal.list r xs) = .ok xs.length := rfl
+@[simp] theorem hasLen_list (r : Ref) (xs : List PyVal) : (PyVal.list r xs).hasLen = true := rfl
+
+theorem batchOrderPre_cols (fx : Fixes) (t : Bool) (c0 : List PyVal) (rest : List PyVal) (cs : List PyVal) (rows : List (List PyVal))
+    (hn : c0.length = rows.length) :
+    batchOrderPre fx (mkSeq t (.list (.lrn 0) c0 :: rest)) (.batch cs rows) 1 =
+      .ok (if rest.length + 1 = rows.length then Option.none else some .col) := by
+  unfold batchOrderPre
+  have h1 : allDicts (mkSeq t (.list (.lrn 0) c0 :: rest)) = .ok false := by
+    simp [allDicts, bind, Except.bind, pure, Except.pure, PyVal.isDict]
+  simp only [h1, isDict_mkSeq, getIdx_mkSeq_zero, lenE_mkSeq, lenE_list, hasLen_list, bind, Except.bind, pure, Except.pure, Bool.false_eq_true, ↓reduceIte,
+    Bool.or_self, Bool.not_true, List.length_cons, hn]
+  simp
+  by_cases h : rest.length + 1 = rows.length <;> simp [h]
+
+theorem hasKwargs_col (t : Bool) (xs : List PyVal) (x : PyVal) :
+    hasKwargs (mkSeq t (xs ++ [x])) .col = x.isDict := by
+  simp [hasKwargs]
+
+
+
+
+/-- `row[0] if len(row)==1 else row` -/
+def stdOfFields (fields : List PyVal) : PyVal :=
+  match fields with
+  | [x] => x
+  | row => .list .tmp row
+
+theorem firstRow_cols (t : Bool) (kw : Bool) (c0 : List PyVal) (rest : List PyVal) (kwd : PyVal) (fields : List PyVal)
+    (hf : firstOfEach (.list (.lrn 0) c0 :: rest) = .ok fields) :
+    firstRow (mkSeq t ((.list (.lrn 0) c0 :: rest) ++ (if kw then [kwd] else []))) .col kw = .ok (stdOfFields fields) := by
+  have hfin : (match fields with | [x] => (pure x : Except Err PyVal) | x => pure (PyVal.list .tmp fields)) = .ok (stdOfFields fields) := by
+    unfold stdOfFields; split <;> rfl
+  cases kw
+  · cases t
+    · simp only [firstRow, mkSeq, Bool.false_eq_true, ↓reduceIte, List.append_nil, pure, Except.pure, bind, Except.bind, Bool.false_and,
+        iter, hf]
+      exact hfin
+    · simp only [firstRow, mkSeq, Bool.false_eq_true, ↓reduceIte, List.append_nil, pure, Except.pure, bind, Except.bind, Bool.false_and,
+        iter, hf]
+      exact hfin
+  · have hdl : (PyVal.list (.lrn 0) c0 :: (rest ++ [kwd])).dropLast = PyVal.list (.lrn 0) c0 :: rest := by
+      have := List.dropLast_concat (l₁ := PyVal.list (.lrn 0) c0 :: rest) (b := kwd)
+      simpa using this
+    cases t
+    · simp only [firstRow, mkSeq, ↓reduceIte, pure, Except.pure, bind, Except.bind, List.cons_append, getIdx, List.getElem?_cons_zero,
+        PyVal.isDict, Bool.and_false, Bool.false_eq_true, dropLast, iter, hdl, hf]
+      exact hfin
+    · simp only [firstRow, mkSeq, ↓reduceIte, pure, Except.pure, bind, Except.bind, List.cons_append, getIdx, List.getElem?_cons_zero,
+        PyVal.isDict, Bool.and_false, Bool.false_eq_true, dropLast, iter, hdl, hf]
+      exact hfin
+
+/-- what `first_row` makes of the first entries of the columns -/
+def colStd (sp : Spec) (a0 : Answer) (as0 : List PyVal) : PyVal := stdOfFields (rowFields sp a0 as0)
+
+theorem predFormat_colStd (fx : Fixes) (sp : Spec) (a0 : Answer) (as0 : List PyVal) (hun : sp.fmt.hinted = false)
+    (h : firstRowOK fx sp a0 as0 = true) (hK : sp.fmt = .PM → 2 ≤ a0.pmf.length) :
+    predFormat fx (colStd sp a0 as0) (some as0) = .ok sp.pfmt := by
+  obtain ⟨fmt, kw, lay, tup, ptup⟩ := sp
+  cases fmt <;> simp [Fmt.hinted] at hun
+  case A =>
+    have := predFormat_rowStd fx ⟨.A, kw, lay, tup, ptup⟩ a0 as0 h
+    simpa [rowStd, core, colStd, stdOfFields, rowFields, Answer.action] using this
+  case AP =>
+    simp only [firstRowOK, Bool.and_eq_true, decide_eq_true_eq] at h
+    have hact := any_pyIs_action as0 a0.pick h.1.1
+    have : (colStd ⟨.AP, kw, lay, tup, ptup⟩ a0 as0).items = some [as0.getD a0.pick .none, a0.p] := by
+      simp [colStd, stdOfFields, rowFields, PyVal.items, Answer.action]
+    simpa [Spec.pfmt, Fmt.kind, Fmt.hinted] using predFormat_AP fx _ _ _ as0 this hact
+  case PM =>
+    have hK := hK rfl
+    simp only [firstRowOK, Bool.and_eq_true, decide_eq_true_eq, Bool.or_eq_true] at h
+    obtain ⟨⟨hp, hl⟩, ⟨hv, h2⟩, hs⟩ := h
+    have hl' : ∀ a ∈ as0, isLrn a = false := by
+      intro a ha; have := List.all_eq_true.mp hl a ha; simpa using this
+    have hne : as0 ≠ [] := by intro h0; simp [h0] at hp
+    have hstd : colStd ⟨.PM, kw, lay, tup, ptup⟩ a0 as0 = .list .tmp a0.pmf := by
+      simp only [colStd, rowFields, stdOfFields]
+      rcases hpm : a0.pmf with _ | ⟨x, _ | ⟨y, r⟩⟩
+      · simp [hpm] at hK
+      · simp [hpm] at hK
+      · rfl
+    rw [hstd]
+    have := predFormat_PM_gen fx (.list .tmp a0.pmf) a0.pmf as0 rfl rfl hne hl' hv
+      (by intro x y hxy; simp only [hxy] at h2; simpa using h2) (Or.inr hK)
+    simpa [Spec.pfmt, Fmt.kind, Fmt.hinted] using this
 
 
 end Coba.C15
